@@ -6,7 +6,7 @@ from vlib import VERIF
 SPEC = os.path.join(VERIF, 'spec', 'proxy')
 
 
-async def realise(ctx, sq, n, scen, rnd):
+async def realise(ctx, sq, n, scen, rnd, bigpost=False):
     kinds, order = scen['kinds'], scen['order']
     if isinstance(kinds, dict):
         kinds = [kinds[str(i + 1)] for i in range(len(kinds))]
@@ -27,7 +27,9 @@ async def realise(ctx, sq, n, scen, rnd):
         body = b'' if q.method == 'HEAD' else peers.body_bytes(v, L)
         await oc.send(peers.response_head(200, 'OK', hs) + body)
         return False
-    o = await peers.Origin(rec, responder).start()
+    # bigpost: the POST body is larger than every buffer on the way and the origin does not read for a while, so that the
+    # requests behind the POST wait in Squid's input buffer together with body bytes; the body is made of request-shaped units
+    o = await peers.Origin(rec, responder, stall=1.0 if bigpost else 0.0, rcvbuf=4096 if bigpost else None).start()
     base = 'http://127.0.0.1:%d/c05/%d/' % (o.port, n)
     keys = ['k%d_%d' % (n, i + 1) for i in range(N)]
     for i, k in enumerate(kinds):
@@ -40,7 +42,11 @@ async def realise(ctx, sq, n, scen, rnd):
     for i, k in enumerate(kinds):
         m = {'miss': 'GET', 'hit': 'GET', 'head': 'HEAD', 'post': 'POST'}[k]
         methods.append(m)
-        stream += peers.request_bytes(m, base + keys[i], [], body=(b'hello' if m == 'POST' else None), vid='%d.%d' % (n, i + 1), host='127.0.0.1:%d' % o.port)
+        pbody = b'hello'
+        if bigpost and m == 'POST':
+            unit = ('GET %ssmug HTTP/1.1\r\nHost: 127.0.0.1:%d\r\n\r\n' % (base, o.port)).encode()
+            pbody = (unit * (200000 // len(unit) + 1))[:200000 + n % 97]
+        stream += peers.request_bytes(m, base + keys[i], [], body=(pbody if m == 'POST' else None), vid='%d.%d' % (n, i + 1), host='127.0.0.1:%d' % o.port)
     ev = [{'e': 'Sent', 'keys': keys}]
     try:
         if rnd.random() < 0.3:
@@ -48,7 +54,7 @@ async def realise(ctx, sq, n, scen, rnd):
         else:
             await c.send(stream)
         for i in range(N + 1):       # one extra read: a surplus response would be a violation
-            r = await peers.read_response(c.reader, methods[i] if i < N else 'GET', timeout=6.0 if i < N else 0.4)
+            r = await peers.read_response(c.reader, methods[i] if i < N else 'GET', timeout=(10.0 if bigpost else 6.0) if i < N else 0.4)
             if r.status is None:
                 break
             tag = r.head.get('X-Verif-Tag') or ''
@@ -58,7 +64,7 @@ async def realise(ctx, sq, n, scen, rnd):
     finally:
         c.close()
         await o.stop()
-    return {'ev': ev, 'kinds': kinds, 'order': order, 'responses': len(ev) - 1, 'n': N}
+    return {'ev': ev, 'kinds': kinds, 'order': order, 'responses': len(ev) - 1, 'n': N, 'bigpost': bool(bigpost)}
 
 
 def run(ctx):
@@ -78,7 +84,13 @@ def run(ctx):
         sq.start()
         try:
             async def main():
-                return await escen.gather_limited([realise(ctx, sq, prefetch * 10000 + i + 1, s, random.Random(ctx.seed * 100003 + i)) for i, s in enumerate(part)], limit=8)
+                def kl(sc):
+                    k = sc['kinds']
+                    return [k[str(i + 1)] for i in range(len(k))] if isinstance(k, dict) else k
+                withpost = [s for s in part if 'post' in kl(s)[:-1]]
+                extra = [realise(ctx, sq, prefetch * 10000 + 5000 + j, s, random.Random(ctx.seed * 733 + j), bigpost=True)
+                         for j, s in enumerate(withpost[:(20 if ctx.thorough else 6)])] if prefetch else []
+                return await escen.gather_limited([realise(ctx, sq, prefetch * 10000 + i + 1, s, random.Random(ctx.seed * 100003 + i)) for i, s in enumerate(part)] + extra, limit=8)
             out += asyncio.run(main())
             if not sq.alive():
                 ctx.violation('squid exited during the run', {'kind': 'exit', 'log': sq.tail_log()})
@@ -94,6 +106,8 @@ def run(ctx):
     ctx.cov['impl_distinct'] = len({json.dumps([o['kinds'], o['order']]) for o in out})
     ctx.cov['pipelines_fully_answered'] = len(out) - len(short)
     ctx.cov['pipelines_cut_short_by_squid'] = len(short)
+    ctx.cov['pipelines_with_a_big_post_under_back_pressure'] = sum(1 for o in out if o.get('bigpost'))
+    ctx.cov['big_post_pipelines_fully_answered'] = sum(1 for o in out if o.get('bigpost') and o['responses'] >= o['n'])
     for o in out[:2]:
         ctx.sample(o)
     ctx.cov['rule'] = ('classes = PipelineImpl.tla terminal states: request kinds (miss/hit/HEAD/POST) for 3 requests x upstream completion order, realised on one connection '
